@@ -82,6 +82,8 @@ fn spell_number(x: &D, rng: &mut Rng, style: &Style) -> String {
         return s;
     }
     let mut s = s;
+    // numbers that are already long stay as they are (29+ digits are rounded by rust_decimal: outside the model)
+    if s.len() > 22 { return s; }
     match rng.below(6) {
         0 => {}
         1 => {
@@ -706,6 +708,93 @@ pub fn op_dbu(args: &[Sexp]) -> String {
     let (m, s) = match (args.get(0).and_then(|a| a.int()), args.get(1).and_then(|a| a.int())) { (Some(m), Some(s)) if (0..=28).contains(&s) => (m, s as u32), _ => return "bad-op".into() };
     match LefDbuPerMicron::try_new(D::new(m, s)) { Ok(v) => format!("ok {}", v.0), Err(_) => "err".into() }
 }
+// canonical printing of a library (shared format with lean/L21/Driver/LefIO.lean: `sLib`)
+fn f() -> Sexp { a("#f") }
+fn s_str(s: &str) -> Sexp { of_bytes(s.as_bytes()) }
+fn s_dec(d: &D) -> Sexp { let n = d.normalize(); a(format!("d{}e{}", n.mantissa(), n.scale())) }
+fn s_opt<T>(o: &Option<T>, g: impl Fn(&T) -> Sexp) -> Sexp { match o { Some(x) => g(x), None => f() } }
+fn s_enum<T: std::fmt::Debug>(e: &T) -> Sexp { a(format!("{:?}", e)) }
+fn s_pt(p: &LefPoint) -> Vec<Sexp> { vec![s_dec(&p.x), s_dec(&p.y)] }
+fn s_pts(ps: &[LefPoint]) -> Vec<Sexp> { ps.iter().map(|p| l(s_pt(p))).collect() }
+fn s_mask(m: &Option<LefMask>) -> Sexp { s_opt(m, |m| s_dec(&m.mask)) }
+fn s_shape(s: &LefShape) -> Sexp {
+    match s {
+        LefShape::Rect(m, p, q) => l([vec![a("rect"), s_mask(m)], s_pt(p), s_pt(q)].concat()),
+        LefShape::Polygon(m, ps) => l([vec![a("poly"), s_mask(m)], s_pts(ps)].concat()),
+        LefShape::Path(m, ps) => l([vec![a("path"), s_mask(m)], s_pts(ps)].concat()),
+    }
+}
+fn s_geom(g: &LefGeometry) -> Sexp {
+    match g {
+        LefGeometry::Shape(s) => s_shape(s),
+        LefGeometry::Iterate { shape, pattern } => l(vec![a("iter"), s_shape(shape), s_dec(&pattern.numx), s_dec(&pattern.numy), s_dec(&pattern.spacex), s_dec(&pattern.spacey)]),
+    }
+}
+fn s_lg(g: &LefLayerGeometries) -> Sexp {
+    l(vec![a("lg"), s_str(&g.layer_name), s_opt(&g.except_pg_net, |b| of_bool(*b)),
+        s_opt(&g.spacing, |s| match s { LefLayerSpacing::Spacing(d) => l(vec![a("sp"), s_dec(d)]), LefLayerSpacing::DesignRuleWidth(d) => l(vec![a("drw"), s_dec(d)]) }),
+        s_opt(&g.width, s_dec), l(std::iter::once(a("geoms")).chain(g.geometries.iter().map(s_geom)).collect()),
+        l(std::iter::once(a("vias")).chain(g.vias.iter().map(|v| l([vec![s_str(&v.via_name)], s_pt(&v.pt)].concat()))).collect())])
+}
+fn s_props(ps: &[LefProperty]) -> Sexp { l(std::iter::once(a("props")).chain(ps.iter().map(|p| l(vec![s_str(&p.name), s_str(&p.value)]))).collect()) }
+fn s_pin(p: &LefPin) -> Sexp {
+    let dir = s_opt(&p.direction, |d| match d {
+        LefPinDirection::Input => l(vec![a("dir"), a("Input"), of_bool(false)]), LefPinDirection::Inout => l(vec![a("dir"), a("Inout"), of_bool(false)]),
+        LefPinDirection::FeedThru => l(vec![a("dir"), a("FeedThru"), of_bool(false)]), LefPinDirection::Output { tristate } => l(vec![a("dir"), a("Output"), of_bool(*tristate)]) });
+    l(vec![a("pin"), s_str(&p.name), dir, s_opt(&p.use_, s_enum), s_opt(&p.shape, s_enum), s_opt(&p.antenna_model, s_enum),
+        l(std::iter::once(a("ant")).chain(p.antenna_attrs.iter().map(|x| l(vec![s_str(&x.key), s_dec(&x.val), s_opt(&x.layer, |s| s_str(s))]))).collect()),
+        s_opt(&p.taper_rule, |s| s_str(s)), s_opt(&p.supply_sensitivity, |s| s_str(s)), s_opt(&p.ground_sensitivity, |s| s_str(s)), s_opt(&p.must_join, |s| s_str(s)), s_opt(&p.net_expr, |s| s_str(s)),
+        s_props(&p.properties),
+        l(std::iter::once(a("ports")).chain(p.ports.iter().map(|pt| l([vec![a("port"), s_opt(&pt.class, s_enum)], pt.layers.iter().map(s_lg).collect()].concat()))).collect())])
+}
+fn s_macro(m: &LefMacro) -> Sexp {
+    let cls = s_opt(&m.class, |c| match c {
+        LefMacroClass::Cover { bump } => l(vec![a("cls"), a("Cover"), f(), of_bool(*bump)]),
+        LefMacroClass::Ring => l(vec![a("cls"), a("Ring"), f(), of_bool(false)]),
+        LefMacroClass::Block { tp } => l(vec![a("cls"), a("Block"), s_opt(tp, s_enum), of_bool(false)]),
+        LefMacroClass::Pad { tp } => l(vec![a("cls"), a("Pad"), s_opt(tp, s_enum), of_bool(false)]),
+        LefMacroClass::Core { tp } => l(vec![a("cls"), a("Core"), s_opt(tp, s_enum), of_bool(false)]),
+        LefMacroClass::EndCap { tp } => l(vec![a("cls"), a("EndCap"), s_enum(tp), of_bool(false)]) });
+    l(vec![a("macro"), s_str(&m.name), cls,
+        s_opt(&m.foreign, |x| l(vec![a("foreign"), s_str(&x.cell_name), s_opt(&x.pt, |p| l(s_pt(p))), s_opt(&x.orient, s_enum)])),
+        s_opt(&m.origin, |p| l(s_pt(p))), s_opt(&m.size, |s| l(vec![s_dec(&s.0), s_dec(&s.1)])), s_opt(&m.symmetry, |v| l(v.iter().map(s_enum).collect())),
+        s_opt(&m.site, |s| s_str(s)), s_opt(&m.source, s_enum), s_opt(&m.eeq, |s| s_str(s)), of_bool(m.fixed_mask), s_props(&m.properties),
+        s_opt(&m.density, |d| l(std::iter::once(a("density")).chain(d.iter().map(|x| l([vec![a("dl"), s_str(&x.layer_name)], x.geometries.iter().map(|r| l([vec![a("dr")], s_pt(&r.pt1), s_pt(&r.pt2), vec![s_dec(&r.density_value)]].concat())).collect()].concat()))).collect())),
+        l(std::iter::once(a("obs")).chain(m.obs.iter().map(s_lg)).collect()), l(std::iter::once(a("pins")).chain(m.pins.iter().map(s_pin)).collect())])
+}
+fn s_via(v: &LefViaDef) -> Sexp {
+    let d2 = |x: &D, y: &D| l(vec![s_dec(x), s_dec(y)]);
+    let data = match &v.data {
+        LefViaDefData::Fixed(x) => l([vec![a("fixed"), s_opt(&x.resistance_ohms, s_dec)], x.layers.iter().map(|ly| l([vec![a("vl"), s_str(&ly.layer_name)], ly.shapes.iter().map(|s| match s {
+            LefViaShape::Rect(m, p, q) => l([vec![a("vrect"), s_mask(m)], s_pt(p), s_pt(q)].concat()), LefViaShape::Polygon(m, ps) => l([vec![a("vpoly"), s_mask(m)], s_pts(ps)].concat()) }).collect()].concat())).collect()].concat()),
+        LefViaDefData::Generated(g) => l(vec![a("gen"), s_str(&g.via_rule_name), d2(&g.cut_size_x, &g.cut_size_y), l(vec![s_str(&g.bot_metal_layer), s_str(&g.cut_layer), s_str(&g.top_metal_layer)]),
+            d2(&g.cut_spacing_x, &g.cut_spacing_y), l(vec![s_dec(&g.bot_enc_x), s_dec(&g.bot_enc_y), s_dec(&g.top_enc_x), s_dec(&g.top_enc_y)]),
+            s_opt(&g.rowcol, |r| d2(&r.rows, &r.cols)), s_opt(&g.origin, |p| l(s_pt(p))), s_opt(&g.offset, |o| l(vec![s_dec(&o.bot_x), s_dec(&o.bot_y), s_dec(&o.top_x), s_dec(&o.top_y)]))]),
+    };
+    l(vec![a("via"), s_str(&v.name), of_bool(v.default), data])
+}
+pub fn lib_s(lb: &LefLibrary) -> Sexp {
+    let ch = |c: &char| s_str(&c.to_string());
+    let units = s_opt(&lb.units, |u| l(vec![a("units"), s_opt(&u.database_microns, |d| of_int(d.0 as i64)), s_opt(&u.time_ns, s_dec), s_opt(&u.capacitance_pf, s_dec), s_opt(&u.resistance_ohms, s_dec),
+        s_opt(&u.power_mw, s_dec), s_opt(&u.current_ma, s_dec), s_opt(&u.voltage_volts, s_dec), s_opt(&u.frequency_mhz, s_dec)]));
+    let pd = |p: &LefPropertyDefinition| match p {
+        LefPropertyDefinition::LefString(o, n, v) => l(vec![a("pstr"), s_enum(o), s_str(n), s_opt(v, |s| s_str(s))]),
+        LefPropertyDefinition::LefReal(o, n, v, r) => l(vec![a("preal"), s_enum(o), s_str(n), s_opt(v, s_dec), s_opt(r, |r| l(vec![s_dec(&r.begin), s_dec(&r.end)]))]),
+        LefPropertyDefinition::LefInteger(o, n, v, r) => l(vec![a("pint"), s_enum(o), s_str(n), s_opt(v, s_dec), s_opt(r, |r| l(vec![s_dec(&r.begin), s_dec(&r.end)]))]),
+    };
+    l(vec![a("lib"), s_opt(&lb.version, s_dec), s_opt(&lb.names_case_sensitive, s_enum), s_opt(&lb.no_wire_extension_at_pin, s_enum),
+        s_opt(&lb.bus_bit_chars, |p| l(vec![ch(&p.0), ch(&p.1)])), s_opt(&lb.divider_char, ch), units, of_bool(lb.fixed_mask), s_opt(&lb.clearance_measure, s_enum),
+        s_opt(&lb.manufacturing_grid, s_dec), s_opt(&lb.use_min_spacing, s_enum),
+        l(std::iter::once(a("propdefs")).chain(lb.property_definitions.iter().map(pd)).collect()),
+        l(std::iter::once(a("exts")).chain(lb.extensions.iter().map(|e| l(vec![s_str(&e.name), s_str(&e.data)]))).collect()),
+        l(std::iter::once(a("vias")).chain(lb.vias.iter().map(s_via)).collect()),
+        l(std::iter::once(a("sites")).chain(lb.sites.iter().map(|s| l(vec![a("site"), s_str(&s.name), s_enum(&s.class), l(vec![s_dec(&s.size.0), s_dec(&s.size.1)]), s_opt(&s.symmetry, |v| l(v.iter().map(s_enum).collect()))]))).collect()),
+        l(std::iter::once(a("macros")).chain(lb.macros.iter().map(s_macro)).collect())])
+}
+pub fn op_parse(args: &[Sexp]) -> String {
+    let txt = match text_arg(args.get(0)) { Some(t) => t, None => return "bad-op".into() };
+    match lef21::verif_hooks::parse_str(&txt) { Ok(lb) => format!("ok {}", lib_s(&lb)), Err(_) => "err".into() }
+}
 fn first_diff(a: &LefLibrary, b: &LefLibrary) -> String {
     let (ja, jb) = (serde_json::to_string(a).unwrap_or_default(), serde_json::to_string(b).unwrap_or_default());
     if ja == jb { return "(differs only in a field the JSON view does not show: fixed_mask)".into(); }
@@ -818,7 +907,7 @@ pub fn oracle_c04(line: &str) -> String {
             }
             other => format!("fail {}", other),
         },
-        "lef.lex" | "lef.enum" | "lef.dbu" => if res == "panic" { "fail panic".into() } else { "pass".into() },
+        "lef.lex" | "lef.enum" | "lef.dbu" | "lef.parse" => if res == "panic" { "fail panic".into() } else { "pass".into() },
         _ => "na".into(),
     }
 }
@@ -843,7 +932,7 @@ pub fn oracle_c05(line: &str) -> String {
             }
             other => format!("fail {}", other),
         },
-        "lef.lex" => if res == "panic" { "fail panic".into() } else { "pass".into() },
+        "lef.lex" | "lef.parse" => if res == "panic" { "fail panic".into() } else { "pass".into() },
         _ => "na".into(),
     }
 }
@@ -851,7 +940,7 @@ pub fn oracle_c11(line: &str) -> String {
     let p = match parsed(line) { Some(p) => p, None => return "na".into() };
     let res = crate::ops::run_line(line);
     match p[0].atom().unwrap_or("") {
-        "lef.crash" | "lef.lex" => if res == "panic" { "fail the reader panicked".into() } else if res.starts_with("ok") || res == "err" { "pass".into() } else { format!("fail {}", res) },
+        "lef.crash" | "lef.lex" | "lef.parse" => if res == "panic" { "fail the reader panicked".into() } else if res.starts_with("ok") || res == "err" { "pass".into() } else { format!("fail {}", res) },
         "lef.big" => if res.ends_with("linear") { "pass".into() } else { format!("fail reading time is not proportional to the input length: {}", res) },
         _ => "na".into(),
     }
@@ -891,6 +980,7 @@ pub fn gen_c04(thorough: bool, rng: &mut Rng, out: &mut Vec<String>) {
             let styleseed = if j == 0 { (i as u64) % 144 } else { rng.below(1 << 40) };
             let txt = render(&lib, styleseed);
             out.push(format!("lef.read {} {}", libseed, text_hex(&txt)));
+            out.push(format!("lef.parse {}", text_hex(&txt)));
             if (i + j) % 5 == 0 { out.push(format!("lef.lex {}", text_hex(&txt))); }
         }
     }
@@ -912,6 +1002,10 @@ pub fn gen_c05(thorough: bool, rng: &mut Rng, out: &mut Vec<String>) {
             // the writer's own output is lexed by the model too
             if let Ok(w) = lib.to_string() { out.push(format!("lef.lex {}", text_hex(&w))); }
         }
+        if i % 2 == 0 {
+            // the model parser reads the writer's own output
+            if let Ok(w) = lib.to_string() { out.push(format!("lef.parse {}", text_hex(&w))); }
+        }
     }
 }
 const FAULT_WORDS: &[&str] = &["MACRO", "END", "PIN", "LAYER", ";", "1.5", "-", "\"unterminated", "RECT", "LIBRARY", "PROPERTY", "BEGINEXT", "VERSION", "9.9", "UNITS", "é", "VIA", "ITERATE", "DO", "+", ".", "#", "\"", "OBS", "PORT", "DENSITY", "VIARULE", "PROPERTYDEFINITIONS", "RANGE", "MASK"];
@@ -920,6 +1014,7 @@ pub fn gen_c11(thorough: bool, rng: &mut Rng, out: &mut Vec<String>) {
     let per = if thorough { 60 } else { 40 };
     let push = |out: &mut Vec<String>, s: &str, lex: bool| {
         out.push(format!("lef.crash {}", text_hex(s)));
+        out.push(format!("lef.parse {}", text_hex(s)));
         if lex { out.push(format!("lef.lex {}", text_hex(s))); }
     };
     // degenerate texts first
